@@ -2,7 +2,7 @@
    [ok] runs Model/AlayModel.v on the *generated* tables and compares.  Published frames are
    decoded with the *Golden* table (Model/AlayGolden.v). *)
 From Coq Require Import String.
-From DS Require Import Base.Prelude Base.Bits Model.Utils Model.AlayModel Model.AlayGolden Gen.AlayLayout.
+From DS Require Import Base.Prelude Base.Bits Model.Utils Model.AlayModel Model.AlayPs Model.AlayGolden Gen.AlayLayout.
 
 Inductive tbl_id := TGs | TAxis | TMotor | TPs | TFs.
 Inductive env_id := EDefault | EAz | EEl | ECw.
@@ -35,6 +35,8 @@ Inductive alay_case :=
 | CDecode (frame : list Z) (items : list (nat * tbl_id * string * value))
 | CModeRec (mode_id : Z) (observed : Z)
 | CSys (inits : list (list Z)) (ops : list (nat * (string * value))) (finals : list (list Z))
+(* PointingStatus.update_status on a real System: inputs, pointing block before, after (None: raised) *)
+| CPsUpd (i : ps_input) (init : list Z) (after : option (list Z))
 | CF64ofZ (z : Z) (out : option Z)
 | CF32ofF64 (x : Z) (out : option Z)
 | CF64ofF32 (x : Z) (out : Z).
@@ -98,7 +100,11 @@ Definition ok (c : alay_case) : bool :=
         end) items
   | CModeRec m obs => received_mode AlayLayout.mode_codes m =? obs
   | CSys inits ops finals => list_eqb zlist_eqb (sys_run sys_descs ops inits) finals
+  | CPsUpd i init after =>
+      option_eqb zlist_eqb (ps_update AlayLayout.ps_table AlayLayout.env_default i init) after
   | CF64ofZ z out => option_eqb Z.eqb (f64_of_Z z) out
-  | CF32ofF64 x out => option_eqb Z.eqb (f32_of_f64 x) out
-  | CF64ofF32 x out => f64_of_f32 x =? out
+  (* both renderings of the casts (UtilsF32 integer model used by the accessors, SpecFloat) against
+     struct.pack / struct.unpack *)
+  | CF32ofF64 x out => option_eqb Z.eqb (f32_of_f64 x) out && option_eqb Z.eqb (f32_of_f64_spec x) out
+  | CF64ofF32 x out => (f64_of_f32 x =? out) && (f64_of_f32_spec x =? out)
   end.
